@@ -78,6 +78,7 @@ VarsIn(e) == CASE e.k = "c"    -> {}
 \* an invalidation event concerning the counted atom: an assignment to a variable occurring in its receiver
 \* or arguments, or a Forget/Changed naming one of them
 Invalidates(a) == \/ a.k = "asg" /\ PText(a.path, 1, "") \in hVars
+                  \/ a.k = "repoint" /\ "F.P" \in hVars
                   \/ a.k = "forget" /\ a.name \in hVars
 \* number of invalidation events among the actions of a list that were really executed
 RECURSIVE Invalidations(_, _, _)
